@@ -81,18 +81,43 @@ Theorem C20_quiet_after_stop_sync : forall fl p s es, is_async fl = false -> Inv
   quiet (outputs fl p (fst (step fl p s Stop)) es) = true.
 Proof. exact quiet_after_stop_sync. Qed.
 
-(* asyncio: holds once a first link has been established (any later dial loop is
-   transport.connect_task, which stop() cancels) *)
-Theorem C20_quiet_after_stop_async_partial : forall fl p es0 es1 es2, is_async fl = true ->
+(* asyncio flavours, the same statement at the same strength: any state satisfying the
+   invariant - in particular stop() while `await gateway.start()` is still in its first
+   connect loop, which is not transport.connect_task and cannot be cancelled by stop():
+   since the D21 repair that loop tests transport.protocol like the threaded ones, so the
+   dial in flight may fail and sleep once more, and then the loop ends *)
+Theorem C20_quiet_after_stop_async : forall fl p s es, is_async fl = true -> Inv fl s ->
+  quiet (outputs fl p (fst (step fl p s Stop)) es) = true.
+Proof. exact quiet_after_stop_async_full. Qed.
+
+(* all four flavours, exact form: whatever follows stop(), the outputs are nothing at all or
+   the single sleep of the dial that was in flight when stop() was called *)
+Theorem C20_after_stop_at_most_one_sleep : forall fl p s es, Inv fl s ->
+  outputs fl p (fst (step fl p s Stop)) es = [] \/
+  outputs fl p (fst (step fl p s Stop)) es = [Sleep (p_rt p)].
+Proof. exact after_stop_at_most_one_sleep. Qed.
+
+(* asyncio, once a first link has been established (any later dial loop is
+   transport.connect_task, which stop() cancels): not even that sleep *)
+Theorem C20_no_output_after_stop_async_connected : forall fl p es0 es1 es2, is_async fl = true ->
   conn (final fl p init es0) = true ->
   outputs fl p (fst (step fl p (final fl p init (es0 ++ es1)) Stop)) es2 = [].
 Proof. exact quiet_after_stop_async_connected. Qed.
 
-(* asyncio, stop() while `await gateway.start()` is still dialling: the loop is not
-   connect_task, is not cancelled and goes on dialling *)
-Theorem C20_quiet_after_stop_async_refuted : forall fl p, is_async fl = true -> 0 < p_rt p ->
-  outputs fl p (fst (step fl p init Stop)) [AttemptFail; Tick (p_rt p)] = [Sleep (p_rt p); Attempt (p_rt p)].
-Proof. exact stop_initial_dial_refuted. Qed.
+(* HISTORY (finding D21, repaired in the repo).  With the header the asyncio connect loops
+   had before the repair (`while True:`, step_unfixed = the same transcription with the
+   loop-test flags false) stop() during the first connect loop did not end it: the pending
+   dial fails, and reconnect_timeout later the loop dials again.  On the current code the
+   same history gives the one sleep and an ended loop. *)
+Theorem C20_quiet_after_stop_async_unfixed_refuted : forall fl p, is_async fl = true -> 0 < p_rt p ->
+  outputs_unfixed fl p (fst (step_unfixed fl p init Stop)) [AttemptFail; Tick (p_rt p)]
+  = [Sleep (p_rt p); Attempt (p_rt p)].
+Proof. exact stop_initial_dial_unfixed_refuted. Qed.
+
+Theorem C20_stop_ends_first_connect_loop : forall fl p, is_async fl = true -> 0 < p_rt p ->
+  outputs fl p (fst (step fl p init Stop)) [AttemptFail; Tick (p_rt p)] = [Sleep (p_rt p)]
+  /\ ct (final fl p (fst (step fl p init Stop)) [AttemptFail; Tick (p_rt p)]) = CIdle.
+Proof. exact stop_initial_dial_ends. Qed.
 
 (* the watchdog inside the automata is Watchdog.wd_check; a drop closes, reports and
    re-dials at the same instant *)
@@ -187,12 +212,29 @@ Example C20_example_sleeping :
   ct s = CSleeping 512 /\ now s < 512 /\ guard_ok AsyncSerial s
   /\ no_user [Send; Tick 300; ReadError; Tick 300] = true
   /\ first_attempt (outputs AsyncSerial p0 s [Send; Tick 300; ReadError; Tick 300]) = Some 512.
-Proof. vm_compute. repeat split; try reflexivity. left. reflexivity. Qed.
+Proof. vm_compute. repeat split; reflexivity. Qed.
 
 Example C20_example_stop :
   conn (final AsyncTcp p0 init [AttemptOk]) = true
   /\ snd (step AsyncTcp p0 (final AsyncTcp p0 init ([AttemptOk] ++ [ReadError; AttemptFail])) Stop) = [].
 Proof. vm_compute. split; reflexivity. Qed.
+
+(* stop() during the first connect loop (init satisfies the invariant; the loop is not
+   cancellable): the dial in flight fails, sleeps, and nothing follows - also when the
+   clock runs on and further events arrive; a dial that succeeds instead dies silently *)
+Example C20_example_stop_first_loop :
+  ct init = CDialing /\ cancellable init = false
+  /\ outputs AsyncSerial p0 (fst (step AsyncSerial p0 init Stop)) [AttemptFail; Tick 512; Tick 512; AttemptOk; Send; Tick 2000]
+     = [Sleep 512]
+  /\ outputs AsyncTcp p0 (fst (step AsyncTcp p0 init Stop)) [Tick 300; AttemptOk; Tick 2000; Send] = []
+  /\ outputs SyncTcp p0 (fst (step SyncTcp p0 init Stop)) [AttemptFail; Tick 512; Tick 512] = [Sleep 512].
+Proof. vm_compute. repeat split; reflexivity. Qed.
+
+(* ... and a user disconnect() while a reconnect loop (connect_task) sleeps ends that loop too *)
+Example C20_example_disconnect_ends_loop :
+  outputs AsyncTcp p0 init [AttemptOk; ReadError; AttemptFail; UserDisconnect; Tick 512; Tick 512]
+  = [MadeCb; LostCb true; Attempt 0; Sleep 512].
+Proof. vm_compute. reflexivity. Qed.
 
 (* a timely schedule with two probes, the second answered exactly rt - delta late *)
 Example C20_example_timely :
@@ -226,8 +268,11 @@ Print Assumptions C20_reconnect_follows_loss_async_refuted.
 Print Assumptions C20_retry_after_fail.
 Print Assumptions C20_retry_timing.
 Print Assumptions C20_quiet_after_stop_sync.
-Print Assumptions C20_quiet_after_stop_async_partial.
-Print Assumptions C20_quiet_after_stop_async_refuted.
+Print Assumptions C20_quiet_after_stop_async.
+Print Assumptions C20_after_stop_at_most_one_sleep.
+Print Assumptions C20_no_output_after_stop_async_connected.
+Print Assumptions C20_quiet_after_stop_async_unfixed_refuted.
+Print Assumptions C20_stop_ends_first_connect_loop.
 Print Assumptions C20_watchdog_sync_tick.
 Print Assumptions C20_watchdog_async_timer.
 Print Assumptions C20_watchdog_timely_safe.
